@@ -79,13 +79,14 @@ Definition convert_line_sep (sepc : Z) (sepp : str) (line : str) (idx ncol : nat
 
 Definition nfields_sep (sepc : Z) (line : str) : nat := length (split sepc line).
 
-(* is_valid_tsv(f_in, sep_column) *)
+(* is_valid_tsv(f_in, sep_column): next(f_in) raises StopIteration on a text without any line;
+   line_2 = next(f_in, None): a text that is only its header is valid *)
 Definition is_valid_sep (sepc : Z) (txt : str) : result bool :=
   match lines_of txt with
   | [] => Err EStopIteration
   | h :: rest =>
     match rest with
-    | [] => Err EStopIteration
+    | [] => Ok true
     | l2 :: more =>
       if prefixb DEFAULTDIRECTION l2 then Ok false
       else if negb (Nat.eqb (nfields_sep sepc l2) (nfields_sep sepc h)) then Ok false
@@ -95,7 +96,8 @@ Definition is_valid_sep (sepc : Z) (txt : str) : result bool :=
 
 (* pin_to_valid_tsv(f_in, f_out, sep_column, sep_protein): everything written to f_out.
    Both call sites of convert_line_pin_to_tsv (second line, remaining lines) pass
-   sep_column and sep_protein on. *)
+   sep_column and sep_protein on.  second_line = next(f_in, None): a text that is only its
+   header is converted to the (stripped) header line; no line at all: StopIteration. *)
 Definition convert_file_sep (sepc : Z) (sepp : str) (txt : str) : result str :=
   match lines_of txt with
   | [] => Err EStopIteration
@@ -105,7 +107,7 @@ Definition convert_file_sep (sepc : Z) (sepp : str) (txt : str) : result str :=
     | Err e => Err e
     | Ok (ncol, idx) =>
       match rest with
-      | [] => Err EStopIteration
+      | [] => Ok (header ++ [NL])
       | l2 :: more =>
         let second := strip l2 in
         Ok (header ++ [NL]
